@@ -1173,6 +1173,19 @@ func genGrammar(repo, outdir string) {
 
 // ---------- sites: map ranges, goroutines, channels, time/rand, panics ----------
 
+// argText prints the arguments of a call as written; long literals are shortened
+func argText(c *ast.CallExpr) string {
+	var parts []string
+	for _, a := range c.Args {
+		t := types.ExprString(a)
+		if len(t) > 60 {
+			t = t[:57] + "..."
+		}
+		parts = append(parts, t)
+	}
+	return strings.Join(parts, ", ")
+}
+
 func rangeKind(t types.Type) string {
 	if t == nil {
 		return "unknown"
@@ -1256,9 +1269,9 @@ func genSites(repo, outdir string) {
 						name := typeString(n.Fun)
 						switch {
 						case name == "panic" || strings.HasPrefix(name, "logx.Panic"):
-							sites = append(sites, fmt.Sprintf("panic %s %s %s", rel, fn, name))
+							sites = append(sites, fmt.Sprintf("panic %s %s %s(%s)", rel, fn, name, argText(n)))
 						case strings.Contains(name, "Must"):
-							sites = append(sites, fmt.Sprintf("must %s %s %s", rel, fn, name))
+							sites = append(sites, fmt.Sprintf("must %s %s %s(%s)", rel, fn, name, argText(n)))
 						case strings.HasPrefix(name, "slices.Sort") || strings.HasPrefix(name, "sort."):
 							sites = append(sites, fmt.Sprintf("sort %s %s %s", rel, fn, name))
 						case strings.HasPrefix(name, "time.") || strings.HasPrefix(name, "rand.") || name == "os.Getenv" || name == "maps.Keys" || name == "maps.Values" || name == "maps.All":
@@ -1316,12 +1329,16 @@ func genSites(repo, outdir string) {
 		items = append(items, leanStr(s))
 	}
 	o.list("sites", "List String", items)
-	var oitems []string
+	var oitems, pitems []string
 	for _, s := range sites {
 		if !strings.HasPrefix(s, "must ") && !strings.HasPrefix(s, "panic ") {
 			oitems = append(oitems, leanStr(s))
+		} else {
+			pitems = append(pitems, leanStr(s))
 		}
 	}
+	o.f("/-- every call that panics by design (`panic`, `logx.Panic*`, `Must*`) with its arguments as written (C09) -/\n")
+	o.list("panicSites", "List String", pitems)
 	o.f("/-- the sites whose behaviour can depend on something other than the input (C12) -/\n")
 	o.list("orderSites", "List String", oitems)
 	o.f("/-- ranges over slices, arrays, strings and integers (deterministic order) -/\ndef orderedRanges : Nat := %d\n\n", ordered)
